@@ -2,7 +2,7 @@ SPECIFICATION Spec
 CONSTANTS
   Denoms = {"aISLM", "utest"}
   BondDenom = "aISLM"
-  MaxLen = 5
+  MaxLen = 4
   Amt = "215"
   ValStake = "1000"
   PowerReduction = "1"
@@ -11,12 +11,12 @@ CONSTANTS
   BurnVeto = TRUE
   BurnPrevote = TRUE
   BurnQuorum = FALSE
-  ParamKeys = {"sendDefault", "send", "tax", "burnVeto", "burnPrevote", "burnQuorum", "minDep", "erc20"}
-  MaxParamChanges = 1
+  ParamKeys = {}
+  MaxParamChanges = 0
   Seeded = TRUE
-  Networks = {"main"}
-  Heights0 = {1}
-  Defects = {}
+  Networks = {"main", "testedge1", "testedge2", "local", "other"}
+  Heights0 = {1, 9}
+  Defects = {"gate_network"}
 INVARIANT MInv_P
 INVARIANT MInv_Model
 PROPERTY MStep_P
